@@ -1,0 +1,6 @@
+//! Verification hooks (only with `--cfg h3_verif`): thin public wrappers around
+//! crate-private QPACK items so that an external harness can run them.
+#![allow(missing_docs)]
+
+pub mod strings;
+pub mod tables;
